@@ -26,6 +26,9 @@ def run(ctx):
     S.warmup_priority(ctx, sc, 'R11.4')
     ctx.rule('R11.8', 'exactly one warm-up event per initialize, scheduled after the base initialisation reset the clock, at the replication\'s absolute warm-up time; warmup() fires WARMUP_EVENT at the clock')
     S.warmup_schedule(ctx, sc, 'R11.8')
+    # the persistent statistic is the timestamp-weighted tally: its register protocol (order guard, accumulate the previous value over the
+    # elapsed interval, always remember the new value) is what makes the published time average right (shared rule with C10)
+    T.timestamp_protocol(ctx)
     T.r115_published_values(ctx)
     S.r116_end_after_clock(ctx, sc)
     T.reset_completeness(ctx, 'R11.7', ['SimCounter', 'SimTally', 'SimWeightedTally', 'SimPersistent'])
